@@ -61,7 +61,16 @@ func TestC16(t *testing.T) {
 			pcfg["tlsCert"], pcfg["tlsKey"] = filepath.Join(d, "cert.pem"), filepath.Join(d, "key.pem")
 		}
 		cf := writeCfg(d, pcfg)
-		env := []string{"TMPDIR=" + d, "PLUGIN_PROTOCOL_VERSIONS=1,2"}
+		env := []string{"TMPDIR=" + d}
+		switch p.Versions {
+		case "":
+			env = append(env, "PLUGIN_PROTOCOL_VERSIONS=1,2")
+		case "unset":
+		case "empty":
+			env = append(env, "PLUGIN_PROTOCOL_VERSIONS=")
+		default:
+			env = append(env, "PLUGIN_PROTOCOL_VERSIONS="+p.Versions)
+		}
 		switch p.Cookie {
 		case "unset":
 		case "empty":
